@@ -18,15 +18,29 @@ import (
 )
 
 type c20case struct {
-	Kind  string `json:"kind"` // format | parse
-	Value int64  `json:"value,omitempty"`
-	Frac  bool   `json:"frac,omitempty"`
-	Text  string `json:"text,omitempty"`
+	Kind   string `json:"kind"` // format | parse
+	Value  int64  `json:"value,omitempty"`
+	Frac   bool   `json:"frac,omitempty"`
+	Text   string `json:"text,omitempty"`
+	Value2 int64  `json:"then_value,omitempty"`
 }
+
+// the text returned for an earlier value must still be intact after later calls
+var c20prevText, c20prevCopy string
+var c20prevVal int64
+var c20prevFrac bool
 
 func c20evalFormat(v int64, frac bool) *Violation {
 	var text string
 	pan := catch(func() { text = slog.VerifSmartDurationStringEx(time.Duration(v), frac) })
+	if c20prevCopy != "" && c20prevText != c20prevCopy {
+		pv, pf, was, now := c20prevVal, c20prevFrac, c20prevCopy, c20prevText
+		c20prevCopy = ""
+		return mkViolation(fmt.Sprintf("C20|text-stays-valid|format|value=%d|frac=%v|then=%d", pv, pf, v), "text-stays-valid",
+			fmt.Sprintf("the text %q returned for %d changed to %q after formatting %d (returned strings alias a reused buffer)", was, pv, now, v),
+			c20case{Kind: "format-pair", Value: pv, Frac: pf, Value2: v})
+	}
+	c20prevText, c20prevCopy, c20prevVal, c20prevFrac = text, strings.Clone(text), v, frac
 	mk := func(clause, detail string) *Violation {
 		return mkViolation(fmt.Sprintf("C20|%s|format|value=%d|frac=%v", clause, v, frac), clause, detail, c20case{Kind: "format", Value: v, Frac: frac})
 	}
@@ -186,6 +200,13 @@ func init() {
 		}
 		if cas.Kind == "format" {
 			return c20evalFormat(cas.Value, cas.Frac)
+		}
+		if cas.Kind == "format-pair" {
+			c20prevCopy = ""
+			if v := c20evalFormat(cas.Value, cas.Frac); v != nil {
+				return v
+			}
+			return c20evalFormat(cas.Value2, cas.Frac)
 		}
 		v, _ := c20evalParse(cas.Text)
 		return v
